@@ -96,6 +96,13 @@ type Plan struct {
 	// with that config list itself (Transport.TLSConfig) and with
 	// Dialer.RequireECH - a deployment that does not rely on DNS for the list.
 	StaticECH bool `json:"static_ech,omitempty"`
+	// BootstrapECH: every node holds the same ECH key; the client knows only its
+	// public name (Transport.Dialer.PublicName) and learns the list from the
+	// server's retry configs where DNS has none.
+	BootstrapECH bool `json:"bootstrap_ech,omitempty"`
+	// DialerResolver: the application also set Transport.Dialer.Resolver (to the
+	// very resolver of the Transport); under a Transport it has no say.
+	DialerResolver bool `json:"dialer_resolver,omitempty"`
 	// Direct: call Transport.RoundTrip instead of http.Client.Do.
 	Direct       bool           `json:"direct,omitempty"`
 	Link         simnet.LinkCfg `json:"link"`
